@@ -5,6 +5,7 @@ model  : Lean `Ohkami.Response.build/render/declared` (the definitions `send_exa
 spec   : this file — an independent HTTP/1.1 response reader + the abstract header-map semantics of the public API
 """
 import json
+from email.utils import formatdate
 from .common import hx, unhx, shrink_list
 
 ID = 'C03'
@@ -91,7 +92,8 @@ def _case(rng):
         elif k < 0.91: ops.append(['json', hx(json.dumps(rng.choice([[1, 2, 3], "s", {"a": 1, "b": [True, None]}, 42, []]), separators=(',', ':')))])
         elif k < 0.95: ops.append(['payload', hx(rng.choice(CTYPES)), _body(rng).hex()])
         else: ops.append(['drop'])
-    return {'status': rng.choice(STATUSES), 'date': DATE, 'ops': ops}
+    clock = rng.randrange(0, 4102444800) if rng.random() < 0.7 else 86400 * rng.randrange(0, 40000) + 86400 * rng.choice([8, 9, 10]) % (86400 * 28) + rng.randrange(86400)      # the Date line is part of the message: any instant, with days 9-11 of a month frequent
+    return {'status': rng.choice(STATUSES), 'clock': clock, 'date': formatdate(clock, usegmt=True), 'ops': ops}
 
 
 def corpus():
@@ -110,9 +112,53 @@ def corpus():
     ] + [mk(st, [['set', h, hx('v')]]) for st, h in zip([200] * len(USER_STD), USER_STD)]
 
 
+def _stream_case(rng):
+    """an event stream as content under any status (the model has no stream content: judged by the wire rules alone; C17 covers the stream itself)"""
+    msgs = [rng.choice(['tick', 'a b', 'x' * 40, 'é', '0']) for _ in range(rng.choice([0, 1, 3]))]
+    ops = [['stream', [hx(m) for m in msgs]]]
+    if rng.random() < 0.5: ops.append(['xset', hx('X-After'), hx('1')])
+    return {'status': rng.choice([200, 200, 201, 204, 204, 304, 404]), 'clock': 784111777, 'date': DATE, 'ops': ops}
+
+
 def generate(rng, tier):
     n = 4000 if tier == 'quick' else 120000
-    return [{'case': _case(rng)} for _ in range(n)]
+    return [{'case': _case(rng)} for _ in range(n)] + [{'case': _stream_case(rng), 'stream': 'stream-content'} for _ in range(n // 140)]
+
+
+def spec_stream(case, out):
+    wire = unhx(out['wire'])
+    head, sep, body = wire.partition(b'\r\n\r\n')
+    if not sep: return 'no end of head'
+    lines = head.split(b'\r\n')
+    st = case['status']
+    if not lines[0].startswith(b'HTTP/1.1 %d ' % st): return f'status line {lines[0]!r}'
+    hs = {}
+    for l in lines[1:]:
+        k, _, v = l.partition(b': ')
+        if k.lower() in hs: return f'header {k!r} twice'
+        hs[k.lower()] = v
+    if st == 204:
+        if body: return f'204 with {len(body)} body bytes on the wire'
+        if b'content-length' in hs: return '204 with Content-Length'
+        return None
+    if st == 304 or 100 <= st <= 199: return None          # content set on a 1xx / 304 is left to the user by `complete` (documented there); the property's no-body rules are 204 and HEAD
+    if hs.get(b'transfer-encoding') != b'chunked' or b'content-length' in hs: return 'a stream needs Transfer-Encoding: chunked and no Content-Length'
+    # de-chunk (RFC 9112 7.1)
+    data, rest = b'', body
+    while True:
+        size, sep, rest = rest.partition(b'\r\n')
+        if not sep: return 'chunk size line not terminated'
+        try: n = int(size, 16)
+        except ValueError: return f'chunk size {size!r}'
+        if n == 0:
+            if rest != b'\r\n': return f'bytes after the last chunk: {rest[:20]!r}'
+            break
+        data, rest = data + rest[:n], rest[n:]
+        if rest[:2] != b'\r\n': return 'chunk not terminated by CRLF'
+        rest = rest[2:]
+    want = b''.join(b'data: ' + unhx(m) + b'\n\n' for m in case['ops'][0][1])
+    if data != want: return f'stream body {data[:60]!r}, the messages are {want[:60]!r}'
+    return None
 
 
 def nontrivial(case):
@@ -228,6 +274,10 @@ def spec_check(case, out):
 
 def judge(case, out, m):
     v = []
+    if case['ops'] and case['ops'][0][0] == 'stream':
+        if 'panic' in out or 'wire' not in out: return [('violation', 'sending a stream response died: ' + str(out)[:160])]
+        bad = spec_stream(case, out)
+        return [('violation', bad)] if bad else []
     bad = spec_check(case, out)
     if bad: v.append(('violation', bad))
     if m is not None:
